@@ -615,6 +615,45 @@ fn stack(out: &mut Vec<GSpec>) {
             });
         }
     }
+    // skip rules that touch the stack and can fail afterwards: the last (failing) iteration of every implicit skip
+    // is an abandoned attempt like any other
+    for (id, skip_rule, alphabet) in [
+        ("stack_skip_c", RuleSpec::helper("COMMENT", 'S', "PUSH(\"#\") ~ \"[\" ~ DROP"), "ab#["),
+        ("stack_skip_w", RuleSpec::helper("WHITESPACE", 'S', "PUSH(\" \") ~ \"[\" ~ DROP"), "ab ["),
+        ("stack_skip_p", RuleSpec::helper("COMMENT", 'S', "POP ~ \"[\""), "ab#["),
+        ("stack_skip_n", RuleSpec::helper("COMMENT", 'N', "PUSH(\"#\") ~ \"[\" ~ DROP"), "ab#["),
+    ] {
+        let mut rules = vec![skip_rule];
+        let bodies = [
+            "\"a\" ~ \"b\"? ~ PEEK_ALL",
+            "\"a\" ~ (\"b\")* ~ PEEK_ALL ~ \"a\"?",
+            "PUSH(\"#\") ~ \"a\" ~ \"b\"? ~ PEEK",
+            "PUSH(\"#\") ~ \"a\" ~ \"b\"? ~ PEEK_ALL ~ \"a\"?",
+            "!(\"a\" ~ \"b\") ~ \"a\" ~ PEEK_ALL?",
+            "(\"a\" ~ \"b\")? ~ PEEK_ALL ~ \"a\"?",
+            "PUSH(\"a\") ~ (\"b\" ~ POP)+",
+        ];
+        for (k, b) in bodies.iter().enumerate() {
+            rules.push(RuleSpec::new(&format!("e{}", k), 'N', b));
+            rules.push(RuleSpec::new(&format!("x{}", k), 'X', b));
+            // the check path: an atomic rule around the non-atomic one
+            rules.push(RuleSpec::new(&format!("a{}", k), 'A', &format!("x{}", k)));
+            rules.push(RuleSpec::new(&format!("c{}", k), 'C', &format!("x{} ~ \"a\"?", k)));
+        }
+        assert!(valid(&rules), "{}", id);
+        out.push(GSpec {
+            id: id.into(),
+            family: "stack".into(),
+            quick: true,
+            rules,
+            alphabet: alphabet.into(),
+            max_len: 5,
+            max_len_thorough: 6,
+            init_alphabet: strs(&["#", ""]),
+            init_depth: 1,
+            ..Default::default()
+        });
+    }
 }
 
 /// Slice family: PUSH(x1) ~ .. ~ PUSH(xd) ~ PEEK[a..b].
@@ -764,7 +803,7 @@ fn utf8(out: &mut Vec<GSpec>) {
                 family: "utf8".into(),
                 quick,
                 rules,
-                alphabet: "aé€😀\r\n".into(),
+                alphabet: "aé€😀\r\nÉ".into(),
                 max_len: 3,
                 max_len_thorough: 4,
                 all_forms: true,
@@ -875,6 +914,40 @@ fn tree(out: &mut Vec<GSpec>) {
         max_len: 6,
         max_len_thorough: 8,
         tree: true,
+        ..Default::default()
+    });
+    // deep trees: structured inputs far beyond the exhaustive length bound (nesting depth up to 24)
+    let rules = vec![
+        RuleSpec::helper("WHITESPACE", 'N', "\" \""),
+        RuleSpec::new("t", 'N', "\"(\" ~ t* ~ \")\""),
+        RuleSpec::new("ts", 'S', "\"(\" ~ (ts | a)* ~ \")\""),
+        RuleSpec::new("tn", 'N', "\"(\" ~ (ts | tn | a)* ~ \")\""),
+        RuleSpec::new("tx", 'X', "\"(\" ~ tx* ~ \")\""),
+        RuleSpec::new("a", 'N', "\"a\""),
+        RuleSpec::new("l", 'N', "a ~ l?"),
+    ];
+    assert!(valid(&rules));
+    let mut inputs: Vec<String> = vec![];
+    for d in [1usize, 2, 3, 8, 15, 16, 17, 18, 24] {
+        inputs.push(format!("{}{}", "(".repeat(d), ")".repeat(d)));
+        inputs.push(format!("{}a{}", "(".repeat(d), ")".repeat(d)));
+        inputs.push(format!("{}() a{}", "( ".repeat(d), ")".repeat(d)));
+        inputs.push("a".repeat(d));
+        inputs.push(format!("{}{}", "(".repeat(d), ")".repeat(d - 1)));
+    }
+    inputs.sort();
+    inputs.dedup();
+    out.push(GSpec {
+        id: "tree_deep".into(),
+        family: "tree".into(),
+        quick: true,
+        rules,
+        alphabet: "()a ".into(),
+        max_len: 0,
+        max_len_thorough: 0,
+        inputs: Some(inputs),
+        tree: true,
+        getters: true,
         ..Default::default()
     });
 }
@@ -1056,6 +1129,42 @@ fn arity(out: &mut Vec<GSpec>) {
             inputs.push("a#a a #a#".to_string());
             inputs.sort();
             inputs.dedup();
+            // the same grammar with the chains grouped to the right explicitly, translated from the unoptimized
+            // AST (`a | (b | (c | d))` is flattened to one ChoiceN / SeqN there, `a | b | c` is not)
+            if [3usize, 5, 12, 13, 7, 16].contains(&n) {
+                let group = |items: &[String], op: &str| -> String {
+                    let mut s = items[items.len() - 1].clone();
+                    for it in items[..items.len() - 1].iter().rev() {
+                        s = format!("{} {} ({})", it, op, s);
+                    }
+                    s
+                };
+                let elems_s: Vec<String> = elems.iter().map(|x| x.to_string()).collect();
+                let mut r2 = rules.clone();
+                for r in r2.iter_mut() {
+                    match r.name.as_str() {
+                        "c" | "ca" => r.body = group(&alts, "|"),
+                        "s" | "sx" => r.body = group(&elems_s, "~"),
+                        _ => {}
+                    }
+                }
+                assert!(valid(&r2), "arity rg {}", n);
+                out.push(GSpec {
+                    id: format!("arity_rg_{}", n),
+                    family: "arity".into(),
+                    quick: [3usize, 12, 13].contains(&n),
+                    rules: r2,
+                    alphabet: "a #".into(),
+                    max_len: 0,
+                    max_len_thorough: 0,
+                    inputs: Some(inputs.clone()),
+                    acc: true,
+                    tree: true,
+                    compare: true,
+                    options: vec!["pest_optimizer = false".to_string()],
+                    ..Default::default()
+                });
+            }
             out.push(GSpec {
                 id: format!("arity_{}", n),
                 family: "arity".into(),
@@ -1096,6 +1205,9 @@ fn sub(out: &mut Vec<GSpec>) {
         "(SOI | \"a\") ~ \"b\"",
         "ANY ~ ANY?",
         "\"ab\"{1,2}",
+        "PUSH(\"a\"+) ~ \"b\" ~ PEEK_ALL",
+        "PUSH(\"a\") ~ PUSH(\"b\") ~ PEEK[0..1] ~ POP_ALL",
+        "PUSH(\"ab\") ~ \" \"? ~ PEEK[..] ~ POP",
         "(!\"ab\" ~ ANY)*",
         "(!\"ab\" ~ ANY)* ~ \"a\"",
         "(!\"aba\" ~ ANY)* ~ \"ab\"?",
@@ -1465,6 +1577,57 @@ pub fn all(out: &mut Vec<GSpec>) {
             }
             ge.push(x);
         }
+    }
+    // node tags (grammar-extras only): with the default options a tag is transparent for the getters
+    if want("mention") {
+        let mut rules = vec![
+            RuleSpec::helper("x", 'N', "\"a\""),
+            RuleSpec::helper("xs", 'S', "\"a\""),
+            RuleSpec::helper("xa", 'A', "\"a\""),
+            RuleSpec::helper("y", 'N', "\"b\""),
+        ];
+        let shapes = [
+            "#t = X",
+            "(#t = X)?",
+            "#t = X*",
+            "(#t = X)* ~ y?",
+            "X ~ #t = (X ~ y) ~ \"b\"?",
+            "(#t = X | y) ~ X*",
+            "#t = (X | y)* ~ X?",
+            "(#a = X ~ #b = X)*",
+            "&(#t = X) ~ ANY",
+            "#t = (X?) ~ \"b\"",
+            "#t = X | #u = X ~ \"b\"",
+            "PUSH(#t = X) ~ y?",
+            "#o = (X ~ #i = (X | y))",
+            "!(#t = X) ~ y ~ X?",
+            "(#t = (X ~ y))? ~ X",
+        ];
+        let mut k = 0;
+        for sh in shapes {
+            // (pest rejects a tag directly on a reference to a silent rule)
+            for x in ["x", "xa"] {
+                rules.push(RuleSpec::new(&format!("m{}", k), if k % 5 == 4 { 'S' } else { 'N' }, &sh.replace('X', x)));
+                k += 1;
+            }
+        }
+        for sh in ["#t = (xs ~ y) ~ xs?", "(#t = (xs | y))* ~ x?", "x ~ #t = (xs? ~ x)"] {
+            rules.push(RuleSpec::new(&format!("m{}", k), 'N', sh));
+            k += 1;
+        }
+        ge.push(GSpec {
+            id: "mention_tag_ge".into(),
+            family: "mention_ge".into(),
+            quick: true,
+            rules,
+            alphabet: "ab".into(),
+            max_len: 6,
+            max_len_thorough: 8,
+            getters: true,
+            extras: true,
+            tagged: true,
+            ..Default::default()
+        });
     }
     out.extend(ge);
 }
